@@ -164,6 +164,16 @@ CHECKS = {
         ref="DESIGN.md 6/C15",
         note=NOTE + "map_tfunc_to_vfunc / smooth_vfunc are tied by the differential check only (np.add.at and sparse products are not traceable).",
         technique="Lean 4 proof (column-wise reduction to scalar sums, convexity of the row-stochastic operator, induction on iterations) tied by differential driver"),
+    "C19": dict(
+        text="PARTIAL. Proved: normalize_ is v -> (v - c)/sqrt(area), yielding area 1 and centroid 0 (similarity laws of area and centroid); "
+             "the flow step system M + step*A0 is positive definite (unique solution) and fixes every V with A0 V = 0; radial projection "
+             "puts every non-zero vector at distance 100; negating an eigenfunction swaps the two threshold sets, so after the conditional "
+             "flip the mean difference along the axis is >= 0. Every spsolve call of tria_mean_curvature_flow is captured and its matrix / "
+             "right-hand side / stopping quantity compared with the model built from the previous iterate; gates and constants compared. "
+             "Monitored, not proved: sphere fixed point and decreasing radial spread (shape-family statements), eigsh/spsolve contracts.",
+        ref="DESIGN.md 6/C19",
+        note=NOTE + "external solves assumed (monitored); shape-family clauses evaluated by the search oracle only.",
+        technique="Lean 4 proof of the normalisation / step / alignment algebra, tied by captured-argument comparison of every flow iteration"),
 }
 
 NOT_YET = {}
